@@ -18,7 +18,7 @@ from . import byt, tok
 from .c20_others import regions_equal
 
 I = z3.Int
-BOUNDS = {"quick": dict(K=3), "thorough": dict(K=5)}
+BOUNDS = {"quick": dict(K=3), "thorough": dict(K=4)}
 CONTAINERS = ["region", "region.split", "source", "reader", "raw-eager", "raw-lazy", "wav-eager", "wav-lazy", "stdin"]
 ALIASES = ["short-only", "sr", "sw", "ch", "aw", "val", "mr", "fmt", "eth", "uc"]
 
@@ -307,9 +307,9 @@ def run(rep):
     rep.assumptions = ["I/O stubs (files, wave, stdin) holding the same byte sequence", "stub validator / recording AudioEnergyValidator stand-in (C07 owns the energy rule)",
                        "stub for _duration_to_nb_windows (C06)"]
     rep.outside = ["pydub-decoded formats, microphone", "inputs longer than %d windows" % K]
-    fm = byt.fmts(tier)[:2] if tier == "quick" else byt.fmts(tier)[:4]
+    fm = byt.fmts(tier)[:2] if tier == "quick" else byt.fmts(tier)[:3]
     for i, (sw, ch) in enumerate(fm):
-        for mode in ((0,) if i == 0 else (6,)) if tier == "quick" else tok.MODES:
+        for mode in ((0,) if i == 0 else (6,)) if tier == "quick" else ((0, 6) if i == 0 else (2, 4)[i - 1:i]):
             for group in ("containers", "aliases", "max_read"):
                 hn = "%s[sw=%d,ch=%d,K=%d,mode=%d]" % (group, sw, ch, K, mode)
                 ex = explore(harness(L, sw, ch, 10 if i % 2 == 0 else 16000, K, mode, group))
